@@ -167,15 +167,206 @@ def _as_comprehension(init: ast.stmt, loop: ast.stmt) -> T.Optional[ast.stmt]:
     return new
 
 
-def _fuse_block(body: T.List[ast.stmt]) -> T.List[ast.stmt]:
-    out: T.List[ast.stmt] = []
+# ---------------------------------------------------------------------------
+# desugaring of search / accumulate idioms (catalogue D2, D3): the loop form is the normal form
+def _terminal(body: T.List[ast.stmt]) -> bool:
+    return bool(body) and isinstance(body[-1], (ast.Raise, ast.Return, ast.Continue, ast.Break))
+
+
+def _genexp(e: ast.AST) -> T.Optional[T.Any]:
+    if isinstance(e, (ast.GeneratorExp, ast.ListComp, ast.SetComp)) and len(e.generators) == 1 and not e.generators[0].is_async:
+        return e
+    return None
+
+
+def _loop_of(gen: ast.comprehension, inner: T.List[ast.stmt], at: ast.AST) -> ast.stmt:
+    body = inner
+    for c in reversed(gen.ifs):
+        body = [ast.If(test=c, body=body, orelse=[])]
+    loop = ast.For(target=copy.deepcopy(gen.target), iter=gen.iter, body=body, orelse=[], type_comment=None)
+    for n in ast.walk(loop.target):
+        if isinstance(n, (ast.Name, ast.Tuple, ast.List, ast.Starred)):
+            n.ctx = ast.Store()
+    ast.copy_location(loop, at)
+    ast.fix_missing_locations(loop)
+    return loop
+
+
+def _has_loop_exit(body: T.List[ast.stmt]) -> bool:
+    for b in body:
+        for n in walk_no_nested(b):
+            if isinstance(n, (ast.Break, ast.Continue)):
+                return True
+    return False
+
+
+def _leading_walrus(t: ast.expr) -> T.Optional[ast.NamedExpr]:
+    while True:
+        if isinstance(t, ast.NamedExpr) and isinstance(t.target, ast.Name):
+            return t
+        if isinstance(t, ast.UnaryOp) and isinstance(t.op, ast.Not):
+            t = t.operand
+        elif isinstance(t, ast.Compare):
+            t = t.left
+        elif isinstance(t, ast.BoolOp):
+            t = t.values[0]
+        else:
+            return None
+
+
+def _desugar_stmt(st: ast.stmt, nxt: T.Optional[ast.stmt]) -> T.Optional[T.Tuple[T.List[ast.stmt], bool]]:
+    """(replacement statements, whether `nxt` was consumed) or None"""
+    # for t in (a, b, c): BODY   ->   t = a; BODY; t = b; BODY; t = c; BODY        (a display: finite, declared in the source)
+    if isinstance(st, ast.For) and not st.orelse and isinstance(st.iter, (ast.Tuple, ast.List)) and 1 <= len(st.iter.elts) <= 6 \
+            and not any(isinstance(x, ast.Starred) for x in st.iter.elts) and not _has_loop_exit(st.body):
+        out: T.List[ast.stmt] = []
+        for e in st.iter.elts:
+            bind = ast.Assign(targets=[copy.deepcopy(st.target)], value=e, type_comment=None)
+            ast.copy_location(bind, st)
+            ast.fix_missing_locations(bind)
+            out.append(bind)
+            out.extend(copy.deepcopy(st.body))
+        return _fuse_block(out), False
+    # for k in M: ... M[k] ...   ->   for k, v in M.items(): ... v ...        (M not changed in the loop)
+    if isinstance(st, ast.For) and not st.orelse and isinstance(st.target, ast.Name):
+        m = st.iter
+        if isinstance(m, ast.Call) and isinstance(m.func, ast.Attribute) and m.func.attr == 'keys' and not m.args:
+            m = m.func.value
+        if isinstance(m, (ast.Name, ast.Attribute)):
+            mt, k = norm(m), st.target.id
+            uses = [n for b in st.body for n in ast.walk(b) if isinstance(n, ast.Subscript) and norm(n.value) == mt and isinstance(n.slice, ast.Name) and n.slice.id == k]
+            changed = [n for b in st.body for n in ast.walk(b) if (isinstance(n, ast.Subscript) and norm(n.value) == mt and not isinstance(n.ctx, ast.Load))
+                       or (isinstance(n, ast.Name) and n.id == k and isinstance(n.ctx, ast.Store))
+                       or (isinstance(n, ast.Call) and isinstance(n.func, ast.Attribute) and norm(n.func.value) == mt and n.func.attr in ('pop', 'update', 'clear', 'setdefault', 'popitem'))]
+            if uses and not changed and all(isinstance(n.ctx, ast.Load) for n in uses):
+                _UNIQ[0] += 1
+                v = f'item__v{_UNIQ[0]}'
+
+                class R(ast.NodeTransformer):
+                    def visit_Subscript(self, n: ast.Subscript) -> ast.AST:
+                        if norm(n.value) == mt and isinstance(n.slice, ast.Name) and n.slice.id == k:
+                            return ast.copy_location(ast.Name(id=v, ctx=ast.Load()), n)
+                        return self.generic_visit(n)
+                body = [R().visit(b) for b in st.body]
+                items = ast.Call(func=ast.Attribute(value=m, attr='items', ctx=ast.Load()), args=[], keywords=[])
+                loop = ast.For(target=ast.Tuple(elts=[ast.Name(id=k, ctx=ast.Store()), ast.Name(id=v, ctx=ast.Store())], ctx=ast.Store()), iter=items, body=body, orelse=[], type_comment=None)
+                ast.copy_location(loop, st)
+                ast.fix_missing_locations(loop)
+                # a leading `x = v` becomes part of the target by copy propagation
+                return [loop], False
+    # if (x := E) ...:   ->   x = E; if x ...:        (the walrus is the first thing the test evaluates)
+    if isinstance(st, ast.If):
+        w = _leading_walrus(st.test)
+        if w is not None:
+            bind = ast.Assign(targets=[ast.Name(id=w.target.id, ctx=ast.Store())], value=w.value, type_comment=None)
+            ast.copy_location(bind, st)
+            ast.fix_missing_locations(bind)
+
+            class W(ast.NodeTransformer):
+                def visit_NamedExpr(self, n: ast.NamedExpr) -> ast.AST:
+                    return ast.copy_location(ast.Name(id=n.target.id, ctx=ast.Load()), n) if n is w else self.generic_visit(n)
+            st.test = W().visit(st.test)
+            return _fuse_block([bind, st]), False
+    # X.update((k, v) for ... if ...)  /  X.update({k: v for ...})   ->   for ...: if ...: X[k] = v
+    if isinstance(st, ast.Expr) and isinstance(st.value, ast.Call) and isinstance(st.value.func, ast.Attribute) and st.value.func.attr == 'update' \
+            and len(st.value.args) == 1 and not st.value.keywords:
+        a = st.value.args[0]
+        recv = st.value.func.value
+        kv = None
+        if isinstance(a, ast.DictComp) and len(a.generators) == 1:
+            kv = (a.key, a.value, a.generators[0])
+        else:
+            g = _genexp(a)
+            if g is not None and isinstance(g.elt, ast.Tuple) and len(g.elt.elts) == 2:
+                kv = (g.elt.elts[0], g.elt.elts[1], g.generators[0])
+        if kv is not None and isinstance(recv, (ast.Name, ast.Attribute)):
+            store = ast.Assign(targets=[ast.Subscript(value=recv, slice=kv[0], ctx=ast.Store())], value=kv[1], type_comment=None)
+            return [_loop_of(kv[2], [store], st)], False
+    # if [not] all(P for x in C): <terminal>   ->   for x in C: if not P: <terminal>      (any: if P)
+    if isinstance(st, ast.If) and not st.orelse and _terminal(st.body):
+        t, neg = st.test, False
+        if isinstance(t, ast.UnaryOp) and isinstance(t.op, ast.Not):
+            t, neg = t.operand, True
+        if isinstance(t, ast.Call) and isinstance(t.func, ast.Name) and t.func.id in ('all', 'any') and len(t.args) == 1 and not t.keywords:
+            g = _genexp(t.args[0])
+            if g is not None and ((t.func.id == 'all') == neg):
+                cond = ast.UnaryOp(op=ast.Not(), operand=g.elt) if t.func.id == 'all' else g.elt
+                return [_loop_of(g.generators[0], [ast.If(test=cond, body=st.body, orelse=[])], st)], False
+    # v = next((E for x in C if P), None); if v is not None: <terminal using v>   ->   for x in C: if P: v = E; <terminal>
+    if isinstance(st, ast.Assign) and len(st.targets) == 1 and isinstance(st.targets[0], ast.Name) and isinstance(st.value, ast.Call) \
+            and isinstance(st.value.func, ast.Name) and st.value.func.id == 'next' and len(st.value.args) == 2 and not st.value.keywords \
+            and isinstance(st.value.args[1], ast.Constant) and st.value.args[1].value is None and isinstance(nxt, ast.If) and not nxt.orelse and _terminal(nxt.body):
+        g = _genexp(st.value.args[0])
+        v = st.targets[0].id
+        t = nxt.test
+        is_set = isinstance(t, ast.Compare) and len(t.ops) == 1 and isinstance(t.ops[0], ast.IsNot) and isinstance(t.left, ast.Name) and t.left.id == v \
+            and isinstance(t.comparators[0], ast.Constant) and t.comparators[0].value is None
+        if g is not None and isinstance(g, ast.GeneratorExp) and is_set:
+            bind = ast.Assign(targets=[ast.Name(id=v, ctx=ast.Store())], value=g.elt, type_comment=None)
+            return [_loop_of(g.generators[0], [bind] + nxt.body, st)], True
+    return None
+
+
+def _boolish(e: ast.AST) -> bool:
+    return isinstance(e, (ast.BoolOp, ast.Compare)) or (isinstance(e, ast.UnaryOp) and isinstance(e.op, ast.Not))
+
+
+def _inline_named_conditions(body: T.List[ast.stmt]) -> None:
+    """`c = a and b` ... `if c:`  ->  `if a and b:` when nothing `c` reads (nor c) is re-bound in between (catalogue C3):
+    the enumerator then decomposes the condition instead of treating the local as one opaque truth value."""
+    defs: T.Dict[str, T.Tuple[ast.expr, T.Set[str]]] = {}
     for st in body:
+        if isinstance(st, (ast.If, ast.While)) and defs:
+            class Sub(ast.NodeTransformer):
+                def visit_Name(self, n: ast.Name) -> ast.AST:
+                    if isinstance(n.ctx, ast.Load) and n.id in defs:
+                        return copy.deepcopy(defs[n.id][0])
+                    return n
+
+                def visit_Lambda(self, n: ast.Lambda) -> ast.AST:
+                    return n
+            t = st.test
+            # only in boolean position: the test itself, operands of and/or/not
+            def pos(e: ast.expr) -> ast.expr:
+                if isinstance(e, ast.Name):
+                    return Sub().visit(e)
+                if isinstance(e, ast.BoolOp):
+                    return ast.copy_location(ast.BoolOp(op=e.op, values=[pos(v) for v in e.values]), e)
+                if isinstance(e, ast.UnaryOp) and isinstance(e.op, ast.Not):
+                    return ast.copy_location(ast.UnaryOp(op=e.op, operand=pos(e.operand)), e)
+                return e
+            st.test = pos(t)
+            ast.fix_missing_locations(st)
+        stored = {n.id for n in ast.walk(st) if isinstance(n, ast.Name) and isinstance(n.ctx, (ast.Store, ast.Del))}
+        mutated = stored | {n.func.value.id for n in ast.walk(st) if isinstance(n, ast.Call) and isinstance(n.func, ast.Attribute) and isinstance(n.func.value, ast.Name)}
+        for k in [k for k, (_, reads) in defs.items() if k in stored or reads & mutated]:
+            del defs[k]
+        if isinstance(st, ast.Assign) and len(st.targets) == 1 and isinstance(st.targets[0], ast.Name) and _boolish(st.value) \
+                and not any(isinstance(n, (ast.NamedExpr, ast.Await, ast.Yield)) for n in ast.walk(st.value)):
+            reads = {n.id for n in ast.walk(st.value) if isinstance(n, ast.Name)}
+            if st.targets[0].id not in reads:      # an accumulator (`flag = flag or c`) is not a named condition
+                defs[st.targets[0].id] = (st.value, reads)
+
+
+def _fuse_block(body: T.List[ast.stmt]) -> T.List[ast.stmt]:
+    _inline_named_conditions(body)
+    out: T.List[ast.stmt] = []
+    i = 0
+    while i < len(body):
+        st = body[i]
+        i += 1
         for field in ('body', 'orelse', 'finalbody'):
             sub_ = getattr(st, field, None)
             if isinstance(sub_, list) and sub_ and isinstance(sub_[0], ast.stmt) and not isinstance(st, (ast.FunctionDef, ast.AsyncFunctionDef, ast.ClassDef)):
                 setattr(st, field, _fuse_block(sub_))
         for h in getattr(st, 'handlers', []) or []:
             h.body = _fuse_block(h.body)
+        d = _desugar_stmt(st, body[i] if i < len(body) else None)
+        if d is not None:
+            out.extend(d[0])
+            if d[1]:
+                i += 1
+            continue
         if out:
             fused = _as_comprehension(out[-1], st)
             if fused is not None:
@@ -185,9 +376,200 @@ def _fuse_block(body: T.List[ast.stmt]) -> T.List[ast.stmt]:
     return out
 
 
-def prepare(stmts: T.List[ast.stmt]) -> T.List[ast.stmt]:
+# ---------------------------------------------------------------------------
+# inlining of private helpers (catalogue E1, E3, E5): `x = self._h(a)` is replaced by the body of `_h`, its
+# parameters and locals renamed apart, its returns turned into assignments to x (single-exit form).  Only helpers of
+# the module the analysed function lives in, with a leading underscore, without returns inside loops / try / with.
+_FUNCS: T.Dict[str, T.List[T.Tuple[str, T.Any, T.Any]]] = {}     # bare name -> [(qualname, node, module)]
+_OWNER: T.Dict[int, T.Tuple[T.Any, str]] = {}                   # id(function node) -> (module, qualname)
+_UNIQ = [0]
+
+
+def _has(node: ast.AST, kinds: T.Tuple[type, ...]) -> bool:
+    return any(isinstance(n, kinds) for n in walk_no_nested(node))
+
+
+def _tail(stmts: T.List[ast.stmt], on_return: T.Callable[[T.Optional[ast.expr]], T.List[ast.stmt]]) -> T.Optional[T.List[ast.stmt]]:
     out: T.List[ast.stmt] = []
-    for s in _fuse_block([copy.deepcopy(x) for x in stmts]):
+    for i, st in enumerate(stmts):
+        if isinstance(st, ast.Return):
+            return out + on_return(st.value)
+        if isinstance(st, ast.Raise):
+            return out + [st]
+        if isinstance(st, ast.If) and _has(st, (ast.Return,)):
+            rest = stmts[i + 1:]
+            b = _tail(list(st.body) + copy.deepcopy(rest), on_return)
+            o = _tail(list(st.orelse) + copy.deepcopy(rest), on_return)
+            if b is None or o is None:
+                return None
+            return out + [ast.copy_location(ast.If(test=st.test, body=b or [ast.Pass()], orelse=o), st)]
+        if _has(st, (ast.Return,)):
+            return None
+        out.append(st)
+    return out + on_return(None)
+
+
+class _Rename(ast.NodeTransformer):
+    def __init__(self, names: T.Set[str], suffix: str):
+        self.names, self.suffix = names, suffix
+
+    def visit_Name(self, n: ast.Name) -> ast.AST:
+        if n.id in self.names:
+            return ast.copy_location(ast.Name(id=n.id + self.suffix, ctx=n.ctx), n)
+        return n
+
+    def visit_arg(self, n: ast.arg) -> ast.AST:
+        if n.arg in self.names:
+            n.arg = n.arg + self.suffix
+        return n
+
+    def visit_ExceptHandler(self, n: ast.ExceptHandler) -> ast.AST:
+        if n.name in self.names:
+            n.name = n.name + self.suffix
+        return self.generic_visit(n)
+
+
+def _find_helper(call: ast.Call, owner: T.Tuple[T.Any, str]) -> T.Optional[T.Tuple[str, T.Any]]:
+    f = call.func
+    mod, oq = owner
+    cls = oq.rsplit('.', 1)[0] if '.' in oq else None
+    if isinstance(f, ast.Attribute) and isinstance(f.value, ast.Name) and (f.value.id in ('self',) or f.value.id in _CLASSES):
+        name = f.attr
+        method = True
+    elif isinstance(f, ast.Name):
+        name, method = f.id, False
+    else:
+        return None
+    if not name.startswith('_') or name.startswith('__'):
+        return None
+    cands = [(q, fn) for q, fn, m in _FUNCS.get(name, []) if m is mod and (('.' in q) == method)]
+    if method and cls is not None:
+        own = [c for c in cands if c[0] == f'{cls}.{name}']
+        cands = own or cands
+    if len(cands) != 1:
+        return None
+    return cands[0]
+
+
+def _inline_call(call: ast.Call, owner: T.Tuple[T.Any, str], stack: T.Tuple[str, ...],
+                 on_return: T.Callable[[T.Optional[ast.expr]], T.List[ast.stmt]]) -> T.Optional[T.List[ast.stmt]]:
+    h = _find_helper(call, owner)
+    if h is None or h[0] in stack or len(stack) > 3:
+        return None
+    q, fn = h
+    if _has(fn, (ast.Yield, ast.YieldFrom, ast.Await, ast.Global, ast.Nonlocal)) or len(list(ast.walk(fn))) > 1500:
+        return None
+    decos = {(d.attr if isinstance(d, ast.Attribute) else getattr(d, 'id', '?')) for d in fn.decorator_list}
+    if decos - {'staticmethod'}:
+        return None
+    a = fn.args
+    if a.vararg or a.kwarg or any(isinstance(x, ast.Starred) for x in call.args) or any(k.arg is None for k in call.keywords):
+        return None
+    params = [p.arg for p in a.posonlyargs + a.args]
+    args = list(call.args)
+    if '.' in q and 'staticmethod' not in decos:
+        if not params or params[0] != 'self':
+            return None
+        params = params[1:]
+        if isinstance(call.func, ast.Attribute) and isinstance(call.func.value, ast.Name) and call.func.value.id in _CLASSES:
+            if not (args and isinstance(args[0], ast.Name) and args[0].id == 'self'):
+                return None
+            args = args[1:]
+    if len(args) > len(params):
+        return None
+    bound: T.Dict[str, ast.expr] = dict(zip(params, args))
+    allnames = params + [p.arg for p in a.kwonlyargs]
+    for k in call.keywords:
+        if k.arg not in allnames or k.arg in bound:
+            return None
+        bound[k.arg] = k.value  # type: ignore[index]
+    defaults = dict(zip(reversed([p.arg for p in a.posonlyargs + a.args]), reversed(a.defaults)))
+    for p_, d in zip(a.kwonlyargs, a.kw_defaults):
+        if d is not None:
+            defaults[p_.arg] = d
+    for n in allnames:
+        if n not in bound:
+            if n not in defaults:
+                return None
+            bound[n] = copy.deepcopy(defaults[n])
+    body = [copy.deepcopy(x) for x in fn.body if not (isinstance(x, ast.Expr) and isinstance(x.value, ast.Constant))]
+    _UNIQ[0] += 1
+    suffix = f'__h{_UNIQ[0]}'
+    local = set(allnames)
+    for x in body:
+        for n in ast.walk(x):
+            if isinstance(n, ast.Name) and isinstance(n.ctx, (ast.Store, ast.Del)):
+                local.add(n.id)
+            elif isinstance(n, ast.ExceptHandler) and n.name:
+                local.add(n.name)
+    local.discard('self')
+    ren = _Rename(local, suffix)
+    body = [ren.visit(x) for x in body]
+    flat = _tail(body, on_return)
+    if flat is None:
+        return None
+    binds: T.List[ast.stmt] = [ast.Assign(targets=[ast.Name(id=n + suffix, ctx=ast.Store())], value=bound[n], type_comment=None) for n in allnames]
+    out = binds + flat
+    for x in out:
+        ast.copy_location(x, call)
+        ast.fix_missing_locations(x)
+    return _inline_block(out, (owner[0], q), stack + (q,))
+
+
+def _inline_block(body: T.List[ast.stmt], owner: T.Tuple[T.Any, str], stack: T.Tuple[str, ...]) -> T.List[ast.stmt]:
+    out: T.List[ast.stmt] = []
+    for st in body:
+        if isinstance(st, (ast.FunctionDef, ast.AsyncFunctionDef, ast.ClassDef)):
+            out.append(st)
+            continue
+        for field in ('body', 'orelse', 'finalbody'):
+            sub_ = getattr(st, field, None)
+            if isinstance(sub_, list) and sub_ and isinstance(sub_[0], ast.stmt):
+                setattr(st, field, _inline_block(sub_, owner, stack))
+        for h in getattr(st, 'handlers', []) or []:
+            h.body = _inline_block(h.body, owner, stack)
+        rep: T.Optional[T.List[ast.stmt]] = None
+        if isinstance(st, ast.Expr) and isinstance(st.value, ast.Call):
+            rep = _inline_call(st.value, owner, stack, lambda v: [ast.Expr(value=v)] if isinstance(v, ast.Call) else [])
+        elif isinstance(st, ast.Assign) and isinstance(st.value, ast.Call):
+            rep = _inline_call(st.value, owner, stack, lambda v, st=st: [ast.Assign(targets=copy.deepcopy(st.targets), value=v if v is not None else ast.Constant(value=None), type_comment=None)])
+        elif isinstance(st, ast.AnnAssign) and isinstance(st.value, ast.Call) and isinstance(st.target, ast.Name):
+            rep = _inline_call(st.value, owner, stack, lambda v, st=st: [ast.Assign(targets=[copy.deepcopy(st.target)], value=v if v is not None else ast.Constant(value=None), type_comment=None)])
+        elif isinstance(st, ast.AugAssign) and isinstance(st.value, ast.Call):
+            rep = _inline_call(st.value, owner, stack, lambda v, st=st: [ast.AugAssign(target=copy.deepcopy(st.target), op=st.op, value=v if v is not None else ast.Constant(value=None))])
+        elif isinstance(st, ast.Return) and isinstance(st.value, ast.Call):
+            rep = _inline_call(st.value, owner, stack, lambda v: [ast.Return(value=v)])
+        elif isinstance(st, ast.If):
+            t, neg = st.test, False
+            if isinstance(t, ast.UnaryOp) and isinstance(t.op, ast.Not):
+                t, neg = t.operand, True
+            if isinstance(t, ast.Call) and _find_helper(t, owner) is not None:
+                _UNIQ[0] += 1
+                tmp = f'cond__h{_UNIQ[0]}'
+                pre = _inline_call(t, owner, stack, lambda v, tmp=tmp: [ast.Assign(targets=[ast.Name(id=tmp, ctx=ast.Store())], value=v if v is not None else ast.Constant(value=None), type_comment=None)])
+                if pre is not None:
+                    test: ast.expr = ast.Name(id=tmp, ctx=ast.Load())
+                    st.test = ast.UnaryOp(op=ast.Not(), operand=test) if neg else test
+                    rep = pre + [st]
+        if rep is not None:
+            for x in rep:
+                ast.copy_location(x, st) if not hasattr(x, 'lineno') else None
+                ast.fix_missing_locations(x)
+            out.extend(rep)
+        else:
+            out.append(st)
+    return out
+
+
+def prepare(stmts: T.List[ast.stmt], owner_fn: T.Any = None) -> T.List[ast.stmt]:
+    """The normal form the rules read: private helpers inlined, search/accumulate idioms in loop form, asserts
+    dropped, conditional expressions and predicate spellings normalised."""
+    body = [copy.deepcopy(x) for x in stmts]
+    owner = _OWNER.get(id(owner_fn)) if owner_fn is not None else None
+    if owner is not None:
+        body = _inline_block(body, owner, (owner[1],))
+    out: T.List[ast.stmt] = []
+    for s in _fuse_block(body):
         r = _Prep().visit(s)
         out.append(r)
     return out
@@ -202,20 +584,60 @@ _COMPS = (ast.ListComp, ast.SetComp, ast.GeneratorExp, ast.DictComp)
 _SIGS: T.Dict[str, T.Optional[T.Tuple[T.Tuple[str, ...], T.Tuple[str, ...]]]] = {}
 _CLASSES: T.Set[str] = set()
 _SIG_KEY: T.Tuple[str, ...] = ()
+_SIG_MODS: T.List[T.Any] = []
+
+
+_CONSTS: T.Dict[str, ast.Constant] = {}        # module-level NAME = <literal>, assigned once
+_CLASS_CONSTS: T.Dict[str, ast.Constant] = {}  # class-level NAME = <literal>, unique over the classes of the modules
+
+
+def _collect_constants(m: T.Any) -> None:
+    seen: T.Dict[str, int] = {}
+    def scan(body: T.List[ast.stmt], into: T.Dict[str, ast.Constant]) -> None:
+        for st in body:
+            tgt = None
+            if isinstance(st, ast.Assign) and len(st.targets) == 1 and isinstance(st.targets[0], ast.Name):
+                tgt, val = st.targets[0].id, st.value
+            elif isinstance(st, ast.AnnAssign) and isinstance(st.target, ast.Name) and st.value is not None:
+                tgt, val = st.target.id, st.value
+            if tgt is None:
+                continue
+            seen[tgt] = seen.get(tgt, 0) + 1
+            if isinstance(val, ast.Constant) and isinstance(val.value, (str, int, bool)) and seen[tgt] == 1:
+                into[tgt] = val
+            else:
+                into.pop(tgt, None)
+    scan(m.tree.body, _CONSTS)
+    for n in ast.walk(m.tree):
+        if isinstance(n, (ast.FunctionDef, ast.AsyncFunctionDef)):
+            for x in ast.walk(n):
+                if isinstance(x, ast.Name) and isinstance(x.ctx, ast.Store):
+                    pass
+    for q, c in m.classes().items():
+        scan(c.body, _CLASS_CONSTS)
 
 
 def set_signatures(*mods: T.Any) -> None:
     """Signatures of the functions / methods of the analysed modules, by callee name; a name defined with
     different parameter lists is ambiguous and its calls are left as written."""
     global _SIG_KEY
-    key = tuple(f'{m.rel}:{m.digest}' for m in mods)
-    if key == _SIG_KEY:
+    key = tuple(f'{m.rel}:{m.digest}:{id(m)}' for m in mods)
+    if key == _SIG_KEY and all(a is b for a, b in zip(_SIG_MODS, mods)):
         return
+    _SIG_MODS[:] = list(mods)     # keep them alive: function nodes are identified by id()
     _SIGS.clear()
     _CLASSES.clear()
+    _FUNCS.clear()
+    _OWNER.clear()
+    _CONSTS.clear()
+    _CLASS_CONSTS.clear()
     for m in mods:
+        _collect_constants(m)
         _CLASSES.update(q for q in m.classes() if '.' not in q)
         for q, f in m.funcs().items():
+            if '#' not in q:
+                _FUNCS.setdefault(f.name, []).append((q, f, m))
+                _OWNER[id(f)] = (m, q)
             a = f.args
             pos = [p.arg for p in a.posonlyargs + a.args]
             static = any((d.attr if isinstance(d, ast.Attribute) else getattr(d, 'id', '')) == 'staticmethod' for d in f.decorator_list)
@@ -224,7 +646,10 @@ def set_signatures(*mods: T.Any) -> None:
             if a.vararg or a.kwarg:
                 sig = None
             else:
-                sig = (tuple(pos), tuple(p.arg for p in a.kwonlyargs))
+                dnames = [p.arg for p in a.posonlyargs + a.args][len(a.posonlyargs + a.args) - len(a.defaults):]
+                dflt = {n: norm(d) for n, d in zip(dnames, a.defaults) if isinstance(d, ast.Constant)}
+                dflt.update({p.arg: norm(d) for p, d in zip(a.kwonlyargs, a.kw_defaults) if isinstance(d, ast.Constant)})
+                sig = (tuple(pos), tuple(p.arg for p in a.kwonlyargs), tuple(sorted(dflt.items())))
             name = f.name
             if name in _SIGS and _SIGS[name] != sig:
                 _SIGS[name] = None
@@ -240,9 +665,12 @@ def canon_call(c: ast.Call) -> ast.Call:
         f = c.func
     name = f.attr if isinstance(f, ast.Attribute) else (f.id if isinstance(f, ast.Name) else None)
     sig = _SIGS.get(name) if name else None
-    if sig is None or not c.keywords:
+    if sig is None:
         return c
-    pos, kwonly = sig
+    pos, kwonly, dfl = sig
+    dflt = dict(dfl)
+    if not c.keywords and not (c.args and len(c.args) <= len(pos) and dflt.get(pos[len(c.args) - 1]) == (norm(c.args[-1]) if isinstance(c.args[-1], ast.Constant) else None)):
+        return c
     if any(isinstance(a, ast.Starred) for a in c.args) or any(k.arg is None for k in c.keywords) or len(c.args) > len(pos):
         return c
     bound: T.Dict[str, ast.AST] = dict(zip(pos, c.args))
@@ -250,6 +678,10 @@ def canon_call(c: ast.Call) -> ast.Call:
         if k.arg in bound or (k.arg not in pos and k.arg not in kwonly):
             return c
         bound[k.arg] = k.value  # type: ignore[index]
+    # an argument spelled out with the constant default of its parameter is the same call as one that omits it
+    for p in list(bound):
+        if p in dflt and isinstance(bound[p], ast.Constant) and norm(bound[p]) == dflt[p] and all(q not in bound or q == p for q in pos[pos.index(p) + 1:] if p in pos):
+            del bound[p]
     args: T.List[ast.AST] = []
     for p in pos:
         if p in bound:
@@ -275,7 +707,12 @@ def fsub(env: T.Dict[str, ast.AST], e: T.Any, blocked: T.FrozenSet[str] = frozen
     if isinstance(e, ast.Name):
         if isinstance(e.ctx, ast.Load) and e.id in env and e.id not in blocked:
             return env[e.id]
+        if isinstance(e.ctx, ast.Load) and e.id in _CONSTS and e.id not in blocked and e.id.isupper():
+            return _CONSTS[e.id]       # NAME = 'literal' hoisted to a module constant reads as the literal
         return e
+    if isinstance(e, ast.Attribute) and isinstance(e.ctx, ast.Load) and isinstance(e.value, ast.Name) and e.attr in _CLASS_CONSTS and e.attr.isupper() \
+            and (e.value.id in ('self', 'cls') or e.value.id in _CLASSES):
+        return _CLASS_CONSTS[e.attr]
     if isinstance(e, ast.Constant) or not isinstance(e, ast.AST):
         return e
     if isinstance(e, ast.Call) and len(e.args) == 2 and not e.keywords:
@@ -525,7 +962,7 @@ class Sym:
              prepared: bool = False) -> T.List[SRow]:
         stmts = body if body is not None else self.fn.body
         if not prepared:
-            stmts = prepare(stmts)
+            stmts = prepare(stmts, self.fn)
         loops = number_loops(stmts)
         en = Enumerator(unroll=self.unroll, handlers=self.handlers, pure=self.pure, max_paths=self.max_paths)
         out: T.List[SRow] = []
@@ -814,7 +1251,7 @@ def straight_line(sym: Sym, fn: T.Union[ast.FunctionDef, ast.AsyncFunctionDef], 
             if isinstance(st, ast.Expr) and isinstance(st.value, ast.Call) and depth < 2:
                 h = _resolve_helper(mod, cls, st.value)
                 if h is not None and h[1] is not cur.fn:
-                    body = prepare(h[1].body)
+                    body = prepare(h[1].body, h[1])
                     binding = _bind_call(h[1], st.value, env)
                     if binding is not None and _walkable(body):
                         walk(body, binding, Sym(h[1], **kwargs), f'{where} -> {h[0]}', depth + 1)
@@ -826,15 +1263,17 @@ def straight_line(sym: Sym, fn: T.Union[ast.FunctionDef, ast.AsyncFunctionDef], 
         return True
 
     env0 = param_env(fn)
-    walk(prepare(fn.body), env0, sym, qn, 0)
+    walk(prepare(fn.body, fn), env0, sym, qn, 0)
     return items, env0
 
 
 def chain_sources(it: ast.AST) -> T.List[ast.AST]:
     """`itertools.chain(A.items(), B.items())` -> [A, B];  `A.items()` -> [A]."""
     def one(e: ast.AST) -> ast.AST:
-        if isinstance(e, ast.Call) and isinstance(e.func, ast.Attribute) and e.func.attr == 'items' and not e.args:
+        if isinstance(e, ast.Call) and isinstance(e.func, ast.Attribute) and e.func.attr in ('items', 'keys') and not e.args:
             return e.func.value
+        if isinstance(e, (ast.Name, ast.Attribute, ast.Subscript)):
+            return e          # iterating a mapping yields its keys
         raise Undecided(f'loop does not iterate over the items of a mapping: {short(e)}')
     while isinstance(it, ast.Call) and isinstance(it.func, ast.Name) and it.func.id in ('list', 'tuple', 'iter') and len(it.args) == 1 and not it.keywords:
         it = it.args[0]   # materialising the sequence does not change its order
